@@ -128,6 +128,7 @@ def main(tier, replay=None):
     # --- monitor: the extracted property on the implementation's own observations
     mon_viol = 0
     per_name = {}
+    flagged = set()
     for key, cl in case_by_key.items():
         il, sl = impl.get(key), spec.get(key)
         if il is None:
@@ -137,6 +138,7 @@ def main(tier, replay=None):
         if sl is None or sl.endswith(" ok"):
             continue
         body = sl.split(" ", 3)[3] if sl.count(" ") >= 3 else sl
+        flagged.add(key)
         for item in body.split(";"):
             run, _, name = item.partition(":")
             if name.startswith("K_") or "panic" in name or "setup" in name:
@@ -156,12 +158,15 @@ def main(tier, replay=None):
 
     # --- correspondence
     diffs = [k for k in case_by_key if impl.get(k) != model.get(k)]
-    if diffs and not c.violations and not c.known_seen:
+    # a difference on a case the monitor already reported (violation or known finding) is part of that report
+    unexplained = [k for k in diffs if k not in flagged]
+    if unexplained and not c.violations:
+        diffs_shown = unexplained
         lines = ["correspondence corr:C01 broke: model and implementation disagree on %d of %d cases;" % (len(diffs), len(case_by_key)),
                  "the monitor (extracted property) found no run on which the implementation's sessions violate C01",
                  "(the difference is in an outcome the monitor does not judge: which handshakes fail, status reports, resumption cache contents).",
                  "theorems no longer tied to the code: " + ", ".join(c.coq["theorems"]), ""]
-        for key in diffs[:10]:
+        for key in diffs_shown[:10]:
             lines += ["case : " + case_by_key[key], "impl : " + str(impl.get(key)), "model: " + str(model.get(key)), ""]
         c.violation("corr", "\n".join(lines), no_input=True)
     elif diffs:
